@@ -31,7 +31,7 @@ class C12(BaseCheck):
              'scales.thriftmux.sink:SocketTransportSink._OnTimeout',
              'scales.pool.watermark:WatermarkPoolSink._ProcessQueue')
   REQUIRED_ANCHORS = ANCHORS
-  REQUIRED_CLASSES = tuple('%s/%s' % h for h in HOPS) + ('boundary', 'discard-expected', 'expired-not-sent')
+  REQUIRED_CLASSES = tuple('%s/%s' % h for h in HOPS) + ('boundary', 'discard-expected', 'expired-not-sent', 'large-tags')
   ASSUMPTIONS = ('bytes are attributed to calls through the frames the server decodes (cid in the argument) '
                  'plus a scan of undecoded trailing bytes for the call id',)
   QUICK_CASES = 1440
@@ -41,6 +41,29 @@ class C12(BaseCheck):
   MIN_DISTINCT = 10
 
   def run_case(self, env, rng, idx, tier):
+    # a connection with a history: its tag pool has handed out (and still leases, e.g. to timed-out
+    # calls the peer never acknowledged) all the small tags, so the calls of this case get large ones
+    from scales.mux.sink import TagPool
+    tag_rng = rng.random()
+    start = None
+    if HOPS[idx % len(HOPS)][0] == 'mux' and tag_rng < 0.35:
+      start = rng.choice([254, 255, 256, 65534, 65535, 65536, 2 ** 23 - 3, rng.randint(257, 2 ** 23)])
+    orig_init = TagPool.__init__
+
+    def init(pool_, *a, **k):
+      orig_init(pool_, *a, **k)
+      if start is not None:
+        pool_._next = start
+    TagPool.__init__ = init
+    try:
+      out = self._run_case(env, rng, idx, tier)
+    finally:
+      TagPool.__init__ = orig_init
+    if start is not None:
+      out.classes = sorted(set(out.classes) | {'large-tags'})
+    return out
+
+  def _run_case(self, env, rng, idx, tier):
     from scales.message import TimeoutError as ScalesTimeout
     from vlib import servers
     from vlib.stackworld import StackWorld
